@@ -247,7 +247,8 @@ def sc_timers(rng, quick):
         seq += [("sync", "lc_end", 40), ("wait", d), ("lc", P.LDN, 0, None, "nowait"), ("wait", 6)]
     out.append(("partner-ka-vs-keepalive", bringup() + seq + [("quiet",)]))
     # silence
-    out.append(("silence-after-bringup", bringup() + retrain("silence", rng)))
+    if not quick:          # (quick tier: family last_reception has the same history with a link command as last reception)
+        out.append(("silence-after-bringup", bringup() + retrain("silence", rng)))
     out.append(("silence-after-traffic", bringup() + [("hdr", "good", 0), ("consume", 1), ("offer",), ("quiet",)]
                 + retrain("silence", rng) + [("offer",), ("quiet",)]))
     # a received header packet restarts the 1 ms timer just as a link command does
@@ -256,7 +257,7 @@ def sc_timers(rng, quick):
                                                                ("lc", P.LDN, 0), ("config", {"auto_ka": 150}),
                                                                ("quiet",)]))
     # the partner speaks again shortly before the time-out: no recovery
-    for back in ([40, 8] if quick else [200, 40, 12, 8, 6]):
+    for back in ([8] if quick else [200, 40, 12, 8, 6]):
         out.append(("reception-%d-before-timeout" % back,
                     bringup(cfg={"auto_ka": None}) + [("wait", 1000 - back - 45), ("lc", P.LDN, 0),
                                                       ("wait", 60), ("config", {"auto_ka": 150}), ("quiet",)]))
@@ -275,8 +276,9 @@ def sc_last_reception(rng, quick):
 
     def case(name, ops, gap):
         out.append(("last-%s-gap%d" % (name, gap),
-                    bringup(cfg={"auto_ka": None, "auto": 1.0}) + [("lc", P.LDN, 0), ("wait", gap)] + ops
-                    + [("wait_down", 1100), ("config", {"auto_ka": AUTO["auto_ka"]}), ("train", {}), ("wait_ready",),
+                    # (no automatic partner reactions: no keep-alives, no LRTY after the DUT's LBAD)
+                    bringup(cfg={"auto_ka": None, "auto": 1.0, "auto_ack": None}) + [("lc", P.LDN, 0), ("wait", gap)] + ops
+                    + [("wait_down", 1100), ("config", dict(AUTO)), ("train", {}), ("wait_ready",),
                        ("hdr", "good", 0), ("offer",), ("quiet",)]))
 
     ign = [("hdr", "bad16", 0), ("wait", 30)]          # the DUT sends LBAD and ignores headers from here on
